@@ -216,8 +216,20 @@ def write_source(adapter, records):
     return p
 
 
-def open_reader(adapter, p, selector=None):
+# (a query string needs an explicit scheme: without one the adapter is guessed from the text after the last dot)
+QUERY_DOOR = {"path": "stream://%s", "path.gz": "stream://%s", "jsonfile": "jsonfile://%s", "jsonfile-plain": "jsonfile://%s?descriptors=false", "avro": "avro://%s",
+              "csvfile": "csvfile://%s", "sqlite": "sqlite://%s"}
+
+
+def open_reader(adapter, p, selector=None, via_query=False):
     from flow.record import RecordReader, RecordStreamReader
+
+    if via_query:
+        # the selector travels inside the URI (?selector=...), no keyword argument at all
+        from urllib.parse import quote
+
+        uri = QUERY_DOOR[adapter] % p
+        return RecordReader(uri + ("&" if "?" in uri else "?") + "selector=" + quote(selector, safe=""))
 
     if adapter == "streamreader":
         return RecordStreamReader(open(p, "rb"), selector=selector)
@@ -234,9 +246,9 @@ def open_reader(adapter, p, selector=None):
     return RecordReader(p, selector=selector)
 
 
-def read_all(adapter, p, selector=None):
+def read_all(adapter, p, selector=None, via_query=False):
     try:
-        rd = open_reader(adapter, p, selector)
+        rd = open_reader(adapter, p, selector, via_query)
     except Exception as e:  # noqa: BLE001
         return [], e
     got, exc = drain(rd)
@@ -281,15 +293,15 @@ def _run_adapter(case):
             return {"ev": 1, "h": h, "nt": False, "out": "%s:plain-read-raises-%s" % (adapter, type(pexc).__name__)}
         oplain = obs_list(plain)
         for expr in ASEL:
-            for how in ("text", "Selector", "CompiledSelector"):
+            for how in ("text", "Selector", "CompiledSelector") + (("uri-query",) if adapter in QUERY_DOOR else ()):
                 n += 1
-                if how == "text":
+                if how in ("text", "uri-query"):
                     given, fresh = expr, Selector(expr)
                 elif how == "Selector":
                     given, fresh = Selector(expr), Selector(expr)
                 else:
                     given, fresh = CompiledSelector(expr), CompiledSelector(expr)
-                got, gexc = read_all(adapter, p, given)
+                got, gexc = read_all(adapter, p, given, via_query=(how == "uri-query"))
                 want = []
                 wexc = None
                 for r, o in zip(plain, oplain):
